@@ -38,7 +38,7 @@ def world(env):
 
 
 EVENTS_Q = [("add", "p"), ("add", "q|p"), ("add", "u=1"), ("add", "!p"), ("add", "p&(r|!r)"), ("push", 1), ("push", 2), ("pop", 1),
-            ("pop", 2), ("reset",), ("solve",), ("value", "p"), ("value", "u+1"), ("model",), ("is_sat", "!q")]
+            ("pop", 2), ("pop", 0), ("push", 0), ("reset",), ("solve",), ("value", "p"), ("value", "u+1"), ("model",), ("is_sat", "!q")]
 EVENTS_T = EVENTS_Q + [("add", "h(p)"), ("add", "u<2"), ("value", "q&p"), ("is_valid", "q|p"), ("is_unsat", "!p")]
 EVENTS_SORT = [("add", "c1=c2"), ("add", "pa=pb"), ("add", "pc=pd"), ("push", 1), ("push", 2), ("pop", 1), ("pop", 2),
                ("reset",), ("solve",), ("is_sat", "c1=c2"), ("is_sat", "pc=pd")]
